@@ -151,7 +151,17 @@ def _render_handle(pkg):
 def _init_handle(pkg):
     """InitCommand.handle with the parsing helpers it may have been split into put back; self.option / self.validate are the
     primitives the rules below speak about and stay calls"""
-    return pkg.expanded("InitCommand", "handle", keep=("option", "validate"))
+    cache = pkg.__dict__.setdefault("_init_handle", {})
+    if "fn" not in cache:
+        import copy
+        from ..normalize import expand_kwargs_dicts
+        fn = copy.deepcopy(pkg.expanded("InitCommand", "handle", keep=("option", "validate")))
+        try:
+            expand_kwargs_dicts(fn)           # BaseConfiguration(name, **settings) with `settings` a display of the function
+        except RecursionError:
+            pass
+        cache["fn"] = fn
+    return cache["fn"]
 
 
 def _example_handle(pkg):
@@ -547,8 +557,22 @@ def _r12(ctx, pkg):
 
     reached = {}       # path -> set of (callee, slot)
     strays = {}        # path -> [unknown call it is handed to]
-    stmts = [n for n in ast.walk(rfn) if isinstance(n, (ast.Assign, ast.AugAssign, ast.Expr, ast.For, ast.With, ast.Return))]
-    stmts.sort(key=lambda n: (n.lineno, n.col_offset))
+    stmts = []
+
+    def collect(body):
+        """statements in execution (source) order -- by position in the statement lists, not by line number"""
+        for st in body:
+            if isinstance(st, (ast.FunctionDef, ast.AsyncFunctionDef, ast.ClassDef)):
+                continue
+            if isinstance(st, (ast.Assign, ast.AugAssign, ast.Expr, ast.For, ast.With, ast.Return)):
+                stmts.append(st)
+            for fld in ("body", "orelse", "finalbody"):
+                b = getattr(st, fld, None)
+                if isinstance(b, list) and b and isinstance(b[0], ast.stmt):
+                    collect(b)
+            for hd in getattr(st, "handlers", []) or []:
+                collect(hd.body)
+    collect(rfn.body)
     for n in stmts:
         # sinks: calls anywhere inside the statement's own expressions
         exprs = []
@@ -676,13 +700,19 @@ def _r11(ctx, pkg):
             continue
         a = sorted(cands, key=lambda x: x.lineno)[-1]
         n += 1
-        st, why = _list_parse(a.value, ci.node)
+        val = a.value
+        for _ in range(2):            # `items = [..]; option = items`: a local bound once is what it was bound to
+            if isinstance(val, ast.Name):
+                src = [x for x in ast.walk(h) if isinstance(x, ast.Assign) and len(x.targets) == 1 and isinstance(x.targets[0], ast.Name) and x.targets[0].id == val.id]
+                if len(src) == 1 and val.id != local:
+                    val = src[0].value
+        st, why = _list_parse(val, ci.node)
         if st == "unknown":
             ctx.unrec("R11", f"--{opt}: list parse", (INIT, a.lineno), f"cannot tell whether every item survives: {why}")
         else:
             ctx.check(st == "ok", "R11", f"--{opt}: list parse", (INIT, a.lineno), why if st == "ok" else
                       f"the items of --{opt} are de-duplicated or re-ordered ({why}): `--network-files=a.kida,b.kida --file-formats=kida,kida` is written as formats = ['kida'] and "
-                      "the render command rejects (or mis-pairs) the configuration", expected="[x.strip() for x in value.split(',') if x]", found=ast.unparse(a.value)[:100])
+                      "the render command rejects (or mis-pairs) the configuration", expected="[x.strip() for x in value.split(',') if x]", found=ast.unparse(val)[:100])
     ctx.floor("R11", "list options parsed", n, 9)
 
 
@@ -974,7 +1004,7 @@ def _r2(ctx, pkg):
     else:
         c = calls[0]
         given = params[:len(c.args)] + [k.arg for k in c.keywords]
-        unknown = [k.arg for k in c.keywords if k.arg not in params]
+        unknown = [k.arg for k in c.keywords if k.arg is not None and k.arg not in params]        # (`**table`: decided below)
         missing = [p for p in params if p not in given]
         ctx.check(not unknown, "R2", "InitCommand passes only known keywords", (INIT, c.lineno), "every keyword is a parameter of BaseConfiguration", found=str(unknown))
         if missing and (any(k.arg is None for k in c.keywords) or any(isinstance(a, ast.Starred) for a in c.args)):
@@ -984,8 +1014,8 @@ def _r2(ctx, pkg):
         # each keyword receives the local of the matching option (name agreement, e.g. required_species=extra_species)
         org = _option_origins(h)
         for k in c.keywords:
-            if k.arg == "species_kwargs":
-                continue        # a dictionary of three option values: its keys are decided just below
+            if k.arg == "species_kwargs" or k.arg is None:
+                continue        # a dictionary of three option values: its keys are decided just below;  `**table`: not read here
             exp = KW_OPTION.get(k.arg)
             got = org.get(k.value.id) if isinstance(k.value, ast.Name) else _origin_of(k.value, org)
             if exp is None:
@@ -1224,8 +1254,15 @@ def _r4_r6_r7(ctx, pkg):
             if v.func.attr in ("partition", "rpartition"):
                 return ("partition",)
         return None
-    unp = [n for lp in _option_loops(ih, org, "ode-modifier") for n in ast.walk(lp)
-           if isinstance(n, ast.Assign) and isinstance(n.targets[0], ast.Tuple) and colon_cut(n.value) is not None]
+    def _bound(v, lp):
+        """a local bound exactly once in the loop is what it was bound to"""
+        if isinstance(v, ast.Name):
+            src = [x for x in ast.walk(lp) if isinstance(x, ast.Assign) and len(x.targets) == 1 and isinstance(x.targets[0], ast.Name) and x.targets[0].id == v.id]
+            if len(src) == 1:
+                return src[0].value
+        return v
+    unp = [ast.copy_location(ast.Assign(targets=n.targets, value=_bound(n.value, lp)), n) for lp in _option_loops(ih, org, "ode-modifier") for n in ast.walk(lp)
+           if isinstance(n, ast.Assign) and isinstance(n.targets[0], ast.Tuple) and colon_cut(_bound(n.value, lp)) is not None]
     if not unp:
         ctx.unrec("R6", "--ode-modifier: key/value unpacking", (INIT, ih.lineno), "no `key, value = <piece>.split(':')` (or partition) found in the loop over the --ode-modifier occurrences")
     else:
@@ -1271,8 +1308,11 @@ def _r4_r6_r7(ctx, pkg):
             if isinstance(v, ast.Name):
                 asg = [a for a in ast.walk(lp) if isinstance(a, ast.Assign) and len(a.targets) == 1 and isinstance(a.targets[0], ast.Name) and a.targets[0].id == v.id]
                 st_ = [x for x in ast.walk(ih) if isinstance(x, ast.Name) and x.id == v.id and isinstance(x.ctx, ast.Store)]
-                if len(asg) == 1 and len(st_) == 1:
-                    return asg[0].value
+                # (a look-up of the entry already there -- `e = D.get(k)` / `e = D[k]` -- binds no new object)
+                made = [a for a in asg if not ((isinstance(a.value, ast.Call) and isinstance(a.value.func, ast.Attribute) and a.value.func.attr == "get" and ast.unparse(a.value.func.value) in D)
+                                               or (isinstance(a.value, ast.Subscript) and ast.unparse(a.value.value) in D))]
+                if len(made) == 1 and len(st_) == len(asg):
+                    return made[0].value
             return v
 
         def fresh_list(v):
@@ -1615,4 +1655,16 @@ BENIGN = [
         {"file": CONF, "old": 'self._species_kwargs.get("grain_symbol", "GRAIN")', "new": 'lookup("grain_symbol", "GRAIN")'},
         {"file": CONF, "old": 'self._species_kwargs.get("surface_prefix", "#")', "new": 'lookup("surface_prefix", "#")'},
         {"file": CONF, "old": 'self._species_kwargs.get("bulk_prefix", "@")', "new": 'lookup("bulk_prefix", "@")'}]},
+    # hardening wave 4: everyday spellings around the writer, the option parser, the render command and the example command
+    {'name': 'writer-element-table-through-fill-helper', 'edits': [{'file': CONF, 'old': '    @property\n    def content(self) -> str:\n', 'new': '    @staticmethod\n    def _fill(table, values: dict) -> None:\n        for key, value in values.items():\n            table[key] = value\n\n    @property\n    def content(self) -> str:\n'}, {'file': CONF, 'old': '        chem_element["elements"] = self._element\n        chem_element["pseudo_elements"] = self._pseudoelement\n        chem_element["replacement"] = self._replacement\n', 'new': '        self._fill(chem_element, {"elements": self._element, "pseudo_elements": self._pseudoelement, "replacement": self._replacement})\n'}]},
+    {'name': 'writer-copies-lists', 'file': CONF, 'old': '        chem_species["allowed"] = self._allowedspecies\n', 'new': '        chem_species["allowed"] = list(self._allowedspecies)\n'},
+    {'name': 'init-list-option-by-loop', 'file': INIT, 'old': '        heating = [h.strip() for h in heating.split(",") if h]\n', 'new': '        heating_items = []\n        for h in heating.split(","):\n            if h:\n                heating_items.append(h.strip())\n        heating = heating_items\n'},
+    {'name': 'init-list-option-module-helper', 'edits': [{'file': INIT, 'old': 'class InitCommand(', 'new': 'def _split_list(text):\n    return [item.strip() for item in text.split(",") if item]\n\n\nclass InitCommand('}, {'file': INIT, 'old': '        heating = [h.strip() for h in heating.split(",") if h]\n', 'new': '        heating = _split_list(heating)\n'}, {'file': INIT, 'old': '        cooling = [c.strip() for c in cooling.split(",") if c]\n', 'new': '        cooling = _split_list(cooling)\n'}]},
+    {'name': 'init-settings-collected-in-a-dict', 'edits': [{'file': INIT, 'old': '            solver=solver,\n            device=device,\n            method=method,\n        )\n', 'new': '            **solver_settings,\n        )\n'}, {'file': INIT, 'old': '        config = BaseConfiguration(\n', 'new': '        solver_settings = dict(solver=solver, device=device, method=method)\n        config = BaseConfiguration(\n'}]},
+    {'name': 'render-network-keywords-in-a-dict', 'file': RENDER, 'old': '        net = Network(\n            filelist=files,\n            fileformats=formats,\n            elements=element,\n            pseudo_elements=pseudo_element,\n            allowed_species=allowed_species,\n            required_species=extra_species,\n            species_kwargs=species_kwargs,\n            grain_model=grain_model,\n            heating=heating,\n            cooling=cooling,\n            shielding=shielding,\n            rate_modifier=rate_modifier,\n            ode_modifier=ode_modifier,\n        )\n', 'new': '        network_kwargs = dict(\n            filelist=files,\n            fileformats=formats,\n            elements=element,\n            pseudo_elements=pseudo_element,\n            allowed_species=allowed_species,\n            required_species=extra_species,\n            species_kwargs=species_kwargs,\n            grain_model=grain_model,\n            heating=heating,\n            cooling=cooling,\n            shielding=shielding,\n            rate_modifier=rate_modifier,\n            ode_modifier=ode_modifier,\n        )\n        net = Network(**network_kwargs)\n'},
+    {'name': 'render-tables-read-with-get', 'file': RENDER, 'old': '        heating = chem_thermal["heating"]\n        cooling = chem_thermal["cooling"]\n', 'new': '        heating = chem_thermal.get("heating")\n        cooling = chem_thermal.get("cooling")\n'},
+    {'name': 'render-installs-tables-in-a-helper', 'edits': [{'file': RENDER, 'old': '        Species._replacement = replacement\n        Species.set_known_elements(element)\n        Species.set_known_pseudoelements(pseudo_element)\n', 'new': '        self._install_species_tables(replacement, element, pseudo_element)\n'}, {'file': RENDER, 'old': '    def handle(self):\n', 'new': '    @staticmethod\n    def _install_species_tables(replacement, element, pseudo_element):\n        from naunet.species import Species\n\n        Species._replacement = replacement\n        Species.set_known_elements(element)\n        Species.set_known_pseudoelements(pseudo_element)\n\n    def handle(self):\n'}]},
+    {'name': 'example-binding-pieces-by-loop', 'file': EXAMPLE, 'old': '        bindingstr = ",".join(f"{s}={sv}" for s, sv in binding.items())\n', 'new': '        bindingparts = []\n        for s, sv in binding.items():\n            bindingparts.append(f"{s}={sv}")\n        bindingstr = ",".join(bindingparts)\n'},
+    {'name': 'example-separator-constant', 'edits': [{'file': EXAMPLE, 'old': 'class ExampleCommand(', 'new': 'ITEM_SEP = ","\n\n\nclass ExampleCommand('}, {'file': EXAMPLE, 'old': '        bindingstr = ",".join(f"{s}={sv}" for s, sv in binding.items())\n', 'new': '        bindingstr = ITEM_SEP.join(f"{s}={sv}" for s, sv in binding.items())\n'}]},
+    {'name': 'init-ode-split-bound-then-unpacked', 'file': INIT, 'old': '                key, value = om.split(":")\n', 'new': '                pieces = om.split(":")\n                key, value = pieces\n'},
 ]
